@@ -82,3 +82,10 @@ Proof.
     unfold subsetcard_tab in E at 3. rewrite number_fst in E. unfold subsetcard_sel in *. now rewrite <- E.
   - intros [obj Hb]. destruct (subsetcard_T2 adj R eq obj Hb) as [a [Ha _]]. eauto.
 Qed.
+
+Lemma subsetcard_in_range adj R eq : irs_in_range (subsetcard_numvar adj) (subsetcard_ir adj R eq).
+Proof.
+  unfold subsetcard_ir, subsetcard_numvar. cbv zeta.
+  apply irs_in_range_app; apply irs_in_range_map; intros y x _ Hx; destruct eq; cbn [ir_lits] in Hx;
+    now apply ids_where_range in Hx.
+Qed.
